@@ -1,6 +1,8 @@
 import ZCV.Lemmas.Define
+import ZCV.Lemmas.DefinesFold
+import ZCV.Lemmas.DefinesLoad
 namespace ZCV.Props.C05
-open ZCV ZCV.Cfg
+open ZCV ZCV.Cfg ZCV.Conf
 
 /-- `%define n v` is accepted exactly when: n (lower-cased) is a legal name, v expands using the definitions read so
     far, and n is either new or already has exactly that expanded value; the mapping then holds the expanded value
@@ -73,5 +75,212 @@ theorem C05_redefine_keeps_value (env : Env) (url : Option Str) (line : Nat) (re
   rcases hlk with hl | hl
   · rw [hc] at hl; cases hl
   · rw [hc] at hl; cases hl; exact lookupDef_setDef_same _ _ _
+
+/-! ## The namespace over whole texts (spec: `ZCV.DefSpec`, written from the statement) -/
+
+/-- `%define name value` does exactly what the statement says (`DefSpec.defineStep`): the name is lower-cased and must be
+    a legal substitution name, the value is expanded once with the definitions read so far, and the name must be new or
+    already hold exactly that expanded value; every rejection is the documented exception at this line (syntax error for
+    an illegal name or a conflicting redefinition, replacement / substitution-syntax error for the value). -/
+theorem C05_define_eq_spec (env : Env) (url : Option Str) (line : Nat) (rest p0 : Str) (more : List Str)
+    (defs : List (Str × Str)) (hs : splitWS1 rest = p0 :: more) (hl : DefSpec.Legal defs) :
+    define env url line rest defs = liftE url line (DefSpec.defineStep env.getenv defs p0 (defValue more)) :=
+  define_eq_spec env url line rest p0 more defs hs hl
+
+/-- the spec's side condition is no restriction: the empty mapping satisfies it and every accepted definition keeps it -/
+theorem C05_legal_invariant (env : Str → Option Str) (d d' : DefSpec.Defs) (n raw : Str) (hl : DefSpec.Legal d)
+    (h : DefSpec.defineStep env d n raw = .ok d') : DefSpec.Legal d' ∧ DefSpec.Legal [] :=
+  ⟨defineStep_legal env d d' n raw hl h, legal_nil⟩
+
+/-- **The mapping after a whole text is the spec's fold over its `%define` lines, in reading order** — for every context
+    the parser can drive (schema loader, schemaless, recorder …), whatever sections, key lines, `%import`s, blank and
+    comment lines stand between the definitions (the text itself contains no `%include`; see
+    `C05_shared_with_includes` for those). -/
+theorem C05_defines_fold {σ} (fuel : Nat) (env : Env) (c : PCtx σ) (active : List Str) (url : Option Str)
+    (lines : List Str) (n : Nat) (st st' : PS σ) (hni : NoInclude lines) (hl : DefSpec.Legal st.defs)
+    (h : parseLines fuel env c active url lines n st = .ok st') :
+    DefSpec.defineFold env.getenv (defLinesOf lines) st.defs = .ok st'.defs :=
+  parse_defs_fold fuel env c active url lines n st st' hni hl h
+
+/-- **A text of `%define` lines, key lines and blank/comment lines is read exactly as the spec's `run` says**: same final
+    mapping, every key's value expanded with the definitions read before it (the recorder logs what reaches the
+    application), and on rejection the documented kind of error at the line the spec names. -/
+theorem C05_text_eq_spec (fuel : Nat) (env : Env) (active : List Str) (url : Option Str)
+    (lines : List Str) (steps : List DefSpec.Step) (n : Nat) (st : PS (List Ev0))
+    (hf : Reads lines steps) (hl : DefSpec.Legal st.defs) (hstack : st.stack = []) :
+    parseLines fuel env rec0 active url lines n st =
+      match DefSpec.run env.getenv n steps st.defs with
+      | .ok (d, vs) => .ok { st with ctx := st.ctx ++ vs.map (fun kv => Ev0.value kv.1 kv.2), defs := d }
+      | .error (i, e) => .error (failOf url i e) :=
+  parse_rec0_spec fuel env active url lines steps n st hf hl hstack
+
+/-- the mapping component of the spec's `run` is the fold over the `%define` lines alone -/
+theorem C05_run_defs (env : Str → Option Str) (steps : List DefSpec.Step) (n : Nat) (d d' : DefSpec.Defs)
+    (vs : List (Str × Str)) (h : DefSpec.run env n steps d = .ok (d', vs)) :
+    DefSpec.defineFold env (DefSpec.definesOf steps) d = .ok d' :=
+  run_defs env steps n d d' vs h
+
+/-- **A reference sees only the definitions read before it.**  For any context and any text `A ++ [key line] ++ B`
+    (`A` accepted, free of `%include`): the mapping at the key line is the spec's fold over the `%define` lines of `A`;
+    the value handed to the context is the expansion under that mapping; if the expansion fails (e.g. the name is
+    defined only in `B`) the whole text is rejected with the documented error at that line — `B` plays no role. -/
+theorem C05_use_sees_only_earlier {σ} (fuel : Nat) (env : Env) (c : PCtx σ) (active : List Str) (url : Option Str)
+    (A B : List Str) (l key raw : Str) (n : Nat) (st stA : PS σ)
+    (hA : runLines fuel env c active url A n st = .ok stA) (hni : NoInclude A) (hl : DefSpec.Legal st.defs)
+    (hshape : lineShape (strip l) = .kv key raw) :
+    DefSpec.defineFold env.getenv (defLinesOf A) st.defs = .ok stA.defs ∧
+    (∀ e, DefSpec.expand env.getenv stA.defs raw = .error e →
+      parseLines fuel env c active url (A ++ l :: B) n st = .error (failOf url (n + A.length + 1) e)) ∧
+    (∀ v, DefSpec.expand env.getenv stA.defs raw = .ok v →
+      parseLines fuel env c active url (A ++ l :: B) n st =
+        (kvCore c url (n + A.length + 1) key v stA >>= fun s => parseLines fuel env c active url B (n + A.length + 1) s)) := by
+  refine ⟨(run_defs_fold fuel env c active url A n st stA hni hl hA).1, ?_, ?_⟩
+  · intro e he
+    rw [use_after_prefix fuel env c active url A B l key raw n st stA hA hshape, he]
+    rfl
+  · intro v hv
+    rw [use_after_prefix fuel env c active url A B l key raw n st stA hA hshape, hv]
+    rfl
+
+/-- in particular: `key $x` before any definition of `x` is a replacement error at that line, even if `x` is defined
+    on the very next line -/
+theorem C05_later_definition_not_seen {σ} (fuel : Nat) (env : Env) (c : PCtx σ) (active : List Str) (url : Option Str)
+    (A B : List Str) (l key x : Str) (n : Nat) (st stA : PS σ)
+    (hA : runLines fuel env c active url A n st = .ok stA)
+    (hshape : lineShape (strip l) = .kv key ('$' :: x)) (hx : SubstSpec.isnameSpec x = true)
+    (hundef : DefSpec.get stA.defs (lower x) = none) :
+    parseLines fuel env c active url (A ++ l :: B) n st =
+      .error (.cfg { kind := .replacement, line := some ((n + A.length + 1 : Nat) : Int), url := url, tag := "replacement" }) := by
+  rw [use_after_prefix fuel env c active url A B l key _ n st stA hA hshape, expand_ref_missing _ _ x hx hundef]
+  rfl
+
+/-- **Case-insensitive names**: `%define N v` and `%define n v` have the same effect (and the same failure) whenever
+    `N` and `n` agree after lower-casing. -/
+theorem C05_case_insensitive (env : Env) (url : Option Str) (line : Nat) (rest rest' n n' : Str) (more : List Str)
+    (defs : List (Str × Str)) (hs : splitWS1 rest = n :: more) (hs' : splitWS1 rest' = n' :: more)
+    (hc : lower n' = lower n) :
+    define env url line rest' defs = define env url line rest defs := by
+  unfold define
+  rw [hs, hs']
+  simp only [hc]
+
+/-- the same on the spec side -/
+theorem C05_case_insensitive_spec (env : Str → Option Str) (d : DefSpec.Defs) (n n' raw : Str) (hc : lower n' = lower n) :
+    DefSpec.defineStep env d n' raw = DefSpec.defineStep env d n raw := by
+  unfold DefSpec.defineStep
+  simp only [hc]
+
+/-- **Case-insensitive references**: changing the letter case of `$name` / `${name}` references in a value (or directive
+    argument) changes neither its expansion nor whether it expands (`DefSpec.RefCase`: everything but the case of such
+    references is kept; `$(ENV)` references are case-sensitive and are not varied). -/
+theorem C05_reference_case_insensitive (env : Env) (defs : List (Str × Str)) (url : Option Str) (line : Nat) (s s' : Str)
+    (h : DefSpec.RefCase s s') :
+    (replace env defs url line s').toOption = (replace env defs url line s).toOption := by
+  rw [replace_eq_expand, replace_eq_expand]
+  unfold DefSpec.expand SubstSpec.substituteSpec
+  have := SubstSpec.spec_refCase (DefSpec.get defs) env.getenv h s s'
+  cases h1 : SubstSpec.spec (DefSpec.get defs) env.getenv s s <;>
+    cases h2 : SubstSpec.spec (DefSpec.get defs) env.getenv s' s' <;> simp_all [liftE]
+
+/-- **One namespace shared with included resources**: at an `%include` line (after an accepted prefix `A`), the included
+    resource is read with the includer's CURRENT mapping — the same one, not a copy of an earlier state and not an empty
+    one — and the rest of the includer is read with the mapping the included resource leaves behind. -/
+theorem C05_shared_with_includes {σ} (fuel : Nat) (env : Env) (c : PCtx σ) (active : List Str) (url : Option Str)
+    (A B F : List Str) (inc arg a u : Str) (n : Nat) (st stA : PS σ)
+    (hA : runLines (fuel + 1) env c active url A n st = .ok stA)
+    (hshape : lineShape (strip inc) = .include_ arg)
+    (hci : c.canInclude = true)
+    (harg : replace env stA.defs url (n + A.length + 1) (strip arg) = .ok a)
+    (hres : env.resolve url a = .url u)
+    (hfile : env.res u = some F)
+    (hact : u ∉ active) :
+    parseLines (fuel + 1) env c active url (A ++ inc :: B) n st =
+      (parseLines fuel env c (u :: active) (some u) F 0 { ctx := stA.ctx, stack := [], defs := stA.defs } >>= fun sub =>
+        parseLines (fuel + 1) env c active url B (n + A.length + 1) { stA with ctx := sub.ctx, defs := sub.defs }) :=
+  include_after_prefix fuel env c active url A B F inc arg a u n st stA hA hshape hci harg hres hfile hact
+
+/-- … so a name defined inside an included resource (with no `%include` of its own) is visible after the `%include`
+    line, and the mapping there is the spec's fold over the includer's earlier definitions followed by the included
+    resource's definitions -/
+theorem C05_include_defs_fold {σ} (fuel : Nat) (env : Env) (c : PCtx σ) (active : List Str) (url : Option Str)
+    (A F : List Str) (u : Str) (n : Nat) (st stA sub : PS σ)
+    (hA : runLines (fuel + 1) env c active url A n st = .ok stA) (hniA : NoInclude A) (hniF : NoInclude F)
+    (hl : DefSpec.Legal st.defs)
+    (hF : parseLines fuel env c (u :: active) (some u) F 0 { ctx := stA.ctx, stack := [], defs := stA.defs } = .ok sub) :
+    DefSpec.defineFold env.getenv (defLinesOf A ++ defLinesOf F) st.defs = .ok sub.defs := by
+  obtain ⟨h1, hl1⟩ := run_defs_fold (fuel + 1) env c active url A n st stA hniA hl hA
+  have h2 := parse_defs_fold fuel env c (u :: active) (some u) F 0 { ctx := stA.ctx, stack := [], defs := stA.defs } sub hniF hl1 hF
+  exact defineFold_append _ _ _ _ _ h1 ▸ h2
+
+/-- **Definitions never carry over from one load to the next.**  `load` takes no mapping as input and returns none
+    (`LoadResult` has no such component); it starts its parser from the EMPTY mapping: a text whose first reference
+    comes before any `%define` (the lines `A` before it hold no `%define` and no `%include`) is never accepted, no
+    matter what was loaded before. -/
+theorem C05_fresh_per_load (conv : Conv) (env : Env) (pkgs : Str → Pkg) (schema : Schema) (url : Option Str)
+    (A B : List Str) (l key raw : Str) (specs : List Str) (e : DefSpec.Err)
+    (hni : NoInclude A) (hnd : defLinesOf A = [])
+    (hshape : lineShape (strip l) = .kv key raw)
+    (hmiss : DefSpec.expand env.getenv [] raw = .error e) :
+    ∀ r, load conv env pkgs schema url (A ++ l :: B) specs ≠ .ok r := by
+  intro r h
+  rw [load_eq_gen] at h
+  obtain ⟨ov, _, h⟩ := bind_ok_inv h
+  obtain ⟨bag, _, h⟩ := bind_ok_inv h
+  obtain ⟨ps, hps, _⟩ := bind_ok_inv h
+  rw [parseLines_append] at hps
+  obtain ⟨stA, hA, hrest⟩ := bind_ok_inv hps
+  have hd := (run_defs_fold 64 env loaderCtx _ url A 0 _ stA hni legal_nil hA).1
+  rw [hnd] at hd
+  simp only [DefSpec.defineFold] at hd
+  rw [parseLines, stepLine_kv _ _ _ _ _ _ _ _ _ _ hshape, replace_eq_expand] at hrest
+  have : stA.defs = [] := by injection hd with hd; exact hd.symm
+  rw [this, hmiss] at hrest
+  cases hrest
+
+/-- the exact outcome when the reference is on the first line (no command-line overrides) -/
+theorem C05_fresh_per_load_error (conv : Conv) (env : Env) (pkgs : Str → Pkg) (schema : Schema) (url : Option Str)
+    (B : List Str) (l key x : Str)
+    (hshape : lineShape (strip l) = .kv key ('$' :: x)) (hx : SubstSpec.isnameSpec x = true) :
+    load conv env pkgs schema url (l :: B) [] =
+      .error (.cfg { kind := .replacement, line := some 1, url := url, tag := "replacement" }) := by
+  rw [load_nil_eq, parseLines, stepLine_kv _ _ _ _ _ _ _ _ _ _ hshape, replace_eq_expand,
+    expand_ref_missing _ _ x hx (by rfl)]
+  rfl
+
+/-! ### the hypotheses are satisfiable: concrete texts -/
+
+/-- `%define A 1` / `k $a` / comment line is a text the fold theorems speak about -/
+example : Reads ["%define A 1".toList, "k $a".toList, "  # comment".toList]
+    [.define "A".toList "1".toList, .use "k".toList "$a".toList, .blank] :=
+  .cons (stepOf_define (line := "%define A 1".toList) (a := "A 1".toList) (p0 := "A".toList) (more := ["1".toList])
+      (by decide) (by decide +kernel) (by decide +kernel))
+    (.cons (stepOf_kv (line := "k $a".toList) (k := "k".toList) (v := "$a".toList) (by decide) (by decide +kernel))
+      (.cons (stepOf_skip (line := "  # comment".toList) (by decide) (by decide +kernel)) .nil))
+
+/-- … and the spec reads it as: `a ↦ 1`, and `k` receives `1` (name and reference differ in case) -/
+example : DefSpec.run (fun _ => none) 0
+    [.define "A".toList "1".toList, .use "k".toList "$a".toList, .blank] [] =
+      .ok ([("a".toList, "1".toList)], [("k".toList, "1".toList)]) := by
+  have h1 : DefSpec.defineStep (fun _ => none) [] "A".toList "1".toList = .ok [("a".toList, "1".toList)] := by
+    have : DefSpec.expand (fun _ => none) [] "1".toList = .ok "1".toList := by
+      unfold DefSpec.expand SubstSpec.substituteSpec
+      rw [show "1".toList = ['1'] from rfl, SubstSpec.spec_lit _ _ _ _ _ (by decide), SubstSpec.spec_nil]; rfl
+    unfold DefSpec.defineStep
+    rw [this]; rfl
+  have h2 : DefSpec.expand (fun _ => none) [("a".toList, "1".toList)] "$a".toList = .ok "1".toList := by
+    unfold DefSpec.expand SubstSpec.substituteSpec
+    rw [show "$a".toList = '$' :: 'a' :: [] from rfl,
+      SubstSpec.spec_bare _ _ _ 'a' [] ['a'] [] (by decide) (by decide) (by decide) (by decide +kernel)]
+    rw [show DefSpec.get [("a".toList, "1".toList)] (lower ['a']) = some "1".toList from by decide +kernel]
+    simp only [SubstSpec.spec_nil]; rfl
+  simp only [DefSpec.run, h1, h2]
+
+/-- `k $a` followed by `%define a 1`: rejected at line 1 with a replacement error, for every context -/
+example {σ} (fuel : Nat) (env : Env) (c : PCtx σ) (active : List Str) (url : Option Str) (ctx : σ) :
+    parseLines fuel env c active url ([] ++ "k $a".toList :: ["%define a 1".toList]) 0 { ctx := ctx, stack := [], defs := [] } =
+      .error (.cfg { kind := .replacement, line := some ((0 + 0 + 1 : Nat) : Int), url := url, tag := "replacement" }) :=
+  C05_later_definition_not_seen fuel env c active url [] _ "k $a".toList "k".toList "a".toList 0
+    { ctx := ctx, stack := [], defs := [] } _ rfl
+    (shape_of_classify_kv (line := "k $a".toList) (by decide) (by decide +kernel)) (by decide) rfl
 
 end ZCV.Props.C05
